@@ -536,6 +536,14 @@ fn fde_pool() -> Vec<(Vec<u8>, Vec<u8>, u64, u64)> {
         (cfa.clone(), vec![CFA_SET_LOC, 0, 0, 0, 0, 0, 0, 0, 0], 0xe000, 0x10),                          // 13: set_loc backwards
         (cfa.clone(), vec![CFA_GNU_ARGS_SIZE, 0x10, CFA_ADVANCE_LOC | 4, CFA_DEF_CFA_OFFSET, 16], 0xf000, 0x10),  // 14: args_size on the bottom row (no initial rules)
         ([one.clone(), vec![CFA_GNU_ARGS_SIZE, 8]].concat(), body.clone(), 0x10000, 0x40),              // 15: args_size set by the CIE
+        // 16-18: a CIE that leaves TWO rows on the stack and >= 2 rules: `save_initial_rules` then
+        // inserts below two live rows (ArrayVec::try_insert with a tail of 2); the FDE pops back down
+        ([two.clone(), vec![CFA_REMEMBER_STATE, CFA_DEF_CFA_OFFSET, 16]].concat(), vec![CFA_ADVANCE_LOC | 4, CFA_RESTORE_STATE, CFA_ADVANCE_LOC | 4, CFA_RESTORE | 6], 0x11000, 0x20),
+        ([many.clone(), vec![CFA_REMEMBER_STATE, CFA_DEF_CFA_OFFSET, 24]].concat(), vec![CFA_ADVANCE_LOC | 2, CFA_RESTORE_STATE, CFA_ADVANCE_LOC | 2, CFA_RESTORE_STATE], 0x12000, 0x20),
+        ([two.clone(), vec![CFA_REMEMBER_STATE, CFA_REMEMBER_STATE, CFA_DEF_CFA_OFFSET, 32]].concat(), vec![CFA_ADVANCE_LOC | 1, CFA_RESTORE_STATE, CFA_ADVANCE_LOC | 1, CFA_RESTORE_STATE, CFA_ADVANCE_LOC | 1, CFA_RESTORE_STATE], 0x13000, 0x20),
+        // 19-20: histories that leave distinctive rows in the upper slots (depth 3 and 4)
+        (two.clone(), vec![CFA_REMEMBER_STATE, CFA_DEF_CFA, 3, 0x33, CFA_GNU_ARGS_SIZE, 0x30, CFA_ADVANCE_LOC | 1, CFA_REMEMBER_STATE, CFA_DEF_CFA, 4, 0x44, CFA_GNU_ARGS_SIZE, 0x40, CFA_ADVANCE_LOC | 1], 0x14000, 0x20),
+        (cfa.clone(), vec![CFA_REMEMBER_STATE, CFA_DEF_CFA, 5, 0x55, CFA_REMEMBER_STATE, CFA_DEF_CFA, 6, 0x66, CFA_REMEMBER_STATE, CFA_ADVANCE_LOC | 1], 0x15000, 0x20),
     ]
 }
 
